@@ -67,6 +67,10 @@ def jobs(tier):
     for txt, free in variants:
         js.append({'name': 'verify non-ASCII output %r against arbitrary bytes at %s' % (txt, free), 'harness': ('props.c06', 'h_verify_nonascii'),
                    'params': {'text': txt, 'free': free}, 'split': 8})
+    for total in ((8192,) if quick else (8192, 16384, 8128)):
+        for tr in (True, False):
+            js.append({'name': 'verify: fresh output of exactly %d bytes, existing output longer (trailing=%s)' % (total, tr), 'harness': (H, 'h_exact_size'),
+                       'params': {'total': total, 'mode': 'Verify', 'trailing': tr}, 'max_steps': 8_000_000})
     from . import project
     js += project.jobs('C06', tier)
     return js
